@@ -125,7 +125,18 @@ def corrupt(rng, kind):
         return rng.choice([["(", ")"], v1 + ["(", ")"], v1 + ["(", ")"] + v2, ["(", ")"] + v1, v1 + ["-o", "(", ")"], ["(", "(", ")", ")"],
                            ["!", "(", ")"]])
     if kind == "operand-missing":
+        r = rng.random()
+        if r < 0.25:
+            return [rng.choice(NEED_OPERAND)]                       # the primary is the whole expression
+        if r < 0.35:
+            return (v1 if rng.random() < 0.5 else []) + ["-fprintf", "out1"]   # first of two operands only
         return v1 + [rng.choice(NEED_OPERAND)]
+    if kind == "unknown-primary" and rng.random() < 0.3:
+        # unknown primaries that extend a known one, followed by what would be a valid operand for it
+        u = rng.choice([["-newermmx", "r"], ["-neweramfoo", "r"], ["-newermm2", "r"], ["-newerac.", "r"], ["-newermtx", "2020-01-01"], ["-namex", "a"],
+                        ["-typef", "f"], ["-size+", "1"], ["-permx", "644"], ["-mtime2", "1"], ["-regexx", ".*"], ["-printf0", "x"], ["-anewerx", "r"],
+                        ["-cnewer2", "r"], ["-newerx", "r"], ["-maxdepth1", "1"]])
+        return rng.choice([v1 + u + v2, u + v1, v1 + u, u])
     if kind == "unknown-primary":
         return rng.choice([v1 + [rng.choice(UNKNOWN)] + v2, [rng.choice([u for u in UNKNOWN if u not in ("-", "--")])] + v1, v1 + [rng.choice(UNKNOWN)]])
     if kind == "bad-operand":
